@@ -4,7 +4,7 @@ import tlc, drv_walk
 
 INV_CONF = ["NoDup", "InsideRoots", "Inside", "Complete", "Ascending", "BulkEqualsGetNext", "Bounded", "NoReask", "OutcomeMode"]
 INV_FAULTY = ["NoDup", "InsideRoots", "Bounded", "NoReask", "OutcomeMode"]
-PINS = dict(PinFirstOrder=False, PinCollapse=False, PinNoProgress=False, PinFirstUnguarded=False, PinLenientSwallowsAll=False, ExchangeFaults='{"none"}', PartialFirst=False, PinPartialFirstLost=False)
+PINS = dict(PinFirstOrder=False, PinCollapse=False, PinNoProgress=False, PinFirstUnguarded=False, PinLenientSwallowsAll=False, ExchangeFaults='{"none"}', PartialFirst=False, PinPartialFirstLost=False, Volatile=False, PinValueOrder=False)
 PROTO_SAMPLE = ["v3n", "v3a_md5", "v3a_sha", "v3p_md5", "v3p_sha"]
 
 
